@@ -36,7 +36,7 @@ func inlineHelpers(anchors ...string) func(caller, callee *ssa.Function) bool {
 		if callee == nil || caller == nil || callee.Pkg == nil || caller.Pkg != callee.Pkg {
 			return false
 		}
-		if token.IsExported(callee.Name()) || known[callee.Name()] {
+		if token.IsExported(callee.Name()) || known[core.CanonName(callee)] {
 			return false
 		}
 		if callee.Synthetic != "" {
